@@ -10,15 +10,16 @@ import (
 
 type profile struct {
 	Name         string  `json:"name"`
-	Keys         int     `json:"keys"`          // number of real boundary keys
-	MaxID        uint64  `json:"max_id"`        // region ids 1..MaxID
-	Ops          int     `json:"ops"`           // operations per history
-	Prefill      bool    `json:"prefill"`       // start from a fully covered key space
-	Stores       int     `json:"stores"`        // peers live on stores 1..Stores (at most 8)
-	Density      float64 `json:"density"`       // target: live regions / boundary intervals
-	NearEach     int     `json:"near_each"`     // lookups around the touched range every n-th operation
-	FullEach     int     `json:"full_each"`     // sampled broad comparison every n-th operation
-	CompleteEach int     `json:"complete_each"` // complete comparison every n-th operation (and after the last)
+	Keys         int     `json:"keys"`                 // number of real boundary keys
+	MaxID        uint64  `json:"max_id"`               // region ids 1..MaxID
+	Ops          int     `json:"ops"`                  // operations per history
+	Prefill      bool    `json:"prefill"`              // start from a fully covered key space
+	Stores       int     `json:"stores"`               // peers live on stores 1..Stores (at most 8)
+	Density      float64 `json:"density"`              // target: live regions / boundary intervals
+	MacroEach    int     `json:"macro_each,omitempty"` // a store-wide burst (evacuate / return) about every n-th operation (0 = never)
+	NearEach     int     `json:"near_each"`            // lookups around the touched range every n-th operation
+	FullEach     int     `json:"full_each"`            // sampled broad comparison every n-th operation
+	CompleteEach int     `json:"complete_each"`        // complete comparison every n-th operation (and after the last)
 }
 
 // op is one recorded operation of a history (self-contained: can be re-applied to any state).
@@ -27,6 +28,7 @@ type op struct {
 	Spec *regionSpec `json:"spec,omitempty"`
 	ID   uint64      `json:"id,omitempty"`
 	Note string      `json:"note,omitempty"` // generator's intent (evidence / distinctness only)
+	API  string      `json:"api,omitempty"`  // "" = PutRegion, "check" = CheckAndPutRegion (may reject a stale epoch)
 }
 
 type gen struct {
@@ -34,6 +36,9 @@ type gen struct {
 	prof  profile
 	keys  []hexkey // sorted real boundary keys; start index 0 means "", end index len(keys) means ""
 	peerN uint64
+	epoch uint64 // region epochs handed out so far (monotone unless a stale one is generated on purpose)
+	// noClone / noStale: used for pre-computed writer lanes of the concurrent phase
+	noClone, noStale bool
 }
 
 func predKey(k hexkey) hexkey {
@@ -338,8 +343,154 @@ func (g *gen) mutateSame0(sp *regionSpec) string {
 	return "identical"
 }
 
-// nextOps produces the next operation(s) for the current model state.
+// nextOps produces the next operation(s) for the current model state and decides how each region
+// object is made (fresh, from a heartbeat, or by cloning the cached object with options) and
+// through which entry point it is put.
 func (g *gen) nextOps(m *model) []op {
+	var ops []op
+	if g.prof.MacroEach > 0 && len(m.es) >= 8 && g.rng.Intn(g.prof.MacroEach) == 0 {
+		ops = g.macroOps(m)
+	}
+	if len(ops) == 0 {
+		ops = g.nextOps0(m)
+	}
+	for i := range ops {
+		o := &ops[i]
+		if o.Kind != "set" {
+			continue
+		}
+		g.finish(m, ops, o)
+	}
+	return ops
+}
+
+// finish assigns epoch, construction path and entry point of a put.
+func (g *gen) finish(m *model, batch []op, o *op) {
+	sp := o.Spec
+	g.epoch++
+	sp.Ver, sp.ConfVer = g.epoch, g.epoch
+	if g.rng.Intn(10) < 3 {
+		o.API = "check"
+		if !g.noStale && g.rng.Intn(12) == 0 {
+			sp.Ver = 1 + uint64(g.rng.Intn(int(g.epoch))) // an old epoch: rejected if something newer is in the way
+			if g.rng.Intn(2) == 0 {
+				sp.ConfVer = sp.Ver
+			}
+		}
+	}
+	if g.noClone {
+		return
+	}
+	switch {
+	case m.get(sp.ID) != nil && g.rng.Intn(3) == 0:
+		sp.Via, sp.CloneFrom = "clone", sp.ID // get - edit - set on the cached object
+	case o.Note == "split-right" && g.rng.Intn(2) == 0:
+		for _, x := range batch {
+			if x.Note == "split-left" {
+				sp.Via, sp.CloneFrom = "clone", x.Spec.ID // the new region is derived from the object of the old one
+			}
+		}
+	}
+}
+
+// macroOps: store-wide bursts as they happen when a store is evicted / goes down and comes back:
+// every region leaves one per-store sub-index and (immediately afterwards) returns to it, so that
+// this sub-index shrinks to (almost) nothing and grows again inside one long-lived cache.
+func (g *gen) macroOps(m *model) []op {
+	rng := g.rng
+	s := uint64(1 + rng.Intn(g.prof.Stores))
+	kind := rng.Intn(3)
+	var out, back []op
+	for _, e := range m.sorted() {
+		if len(out) >= 400 {
+			break
+		}
+		sp := e.spec
+		var on *peerSpec
+		for i := range sp.Peers {
+			if sp.Peers[i].Store == s {
+				on = &sp.Peers[i]
+			}
+		}
+		if on == nil {
+			continue
+		}
+		switch kind {
+		case 0: // leaders leave the store and come back
+			if on.Learner || sp.Leader != on.ID {
+				continue
+			}
+			a := sp.clone()
+			a.Leader = 0
+			for _, p := range a.Peers {
+				if !p.Learner && p.ID != on.ID {
+					a.Leader = p.ID
+					break
+				}
+			}
+			b := a.clone()
+			b.Leader = on.ID
+			if rng.Intn(2) == 0 {
+				b.Size = g.randSize()
+			}
+			out = append(out, op{Kind: "set", Spec: a, Note: "evacuate-leader"})
+			back = append(back, op{Kind: "set", Spec: b, Note: "return-leader"})
+		case 1: // the peers on the store are removed and added again
+			if len(sp.Peers) < 2 {
+				continue
+			}
+			a := sp.clone()
+			for i := range a.Peers {
+				if a.Peers[i].Store == s {
+					a.Peers = append(a.Peers[:i:i], a.Peers[i+1:]...)
+					break
+				}
+			}
+			normalise(a)
+			if a.Leader == 0 {
+				g.randLeader(a, false)
+			}
+			b := a.clone()
+			b.Peers = append(b.Peers, peerSpec{ID: g.peerID(b, s), Store: s, Learner: rng.Intn(3) == 0})
+			if rng.Intn(2) == 0 {
+				b.Pending = append(b.Pending, b.Peers[len(b.Peers)-1].ID)
+			}
+			out = append(out, op{Kind: "set", Spec: a, Note: "evacuate-peer"})
+			back = append(back, op{Kind: "set", Spec: b, Note: "return-peer"})
+		default: // every peer on the store becomes pending, then healthy again
+			a := sp.clone()
+			has := false
+			for _, q := range a.Pending {
+				has = has || q == on.ID
+			}
+			if has {
+				continue
+			}
+			a.Pending = append(a.Pending, on.ID)
+			b := sp.clone()
+			out = append(out, op{Kind: "set", Spec: b, Note: "clear-pending"})
+			back = append(back, op{Kind: "set", Spec: a, Note: "mark-pending"})
+		}
+	}
+	if kind == 2 {
+		// pending: first everything on the store becomes pending (sub-index grows), then clears (shrinks), then again
+		out, back = back, out
+		third := make([]op, 0, len(out))
+		for _, o := range out {
+			third = append(third, op{Kind: "set", Spec: o.Spec.clone(), Note: "mark-pending"})
+		}
+		back = append(back, third...)
+	}
+	for i := range out {
+		normalise(out[i].Spec)
+	}
+	for i := range back {
+		normalise(back[i].Spec)
+	}
+	return append(out, back...)
+}
+
+func (g *gen) nextOps0(m *model) []op {
 	rng := g.rng
 	pickExisting := func() *entry {
 		if len(m.es) == 0 {
